@@ -51,7 +51,17 @@ BUILDS = {
 def build_harness(workdir, build="fast-nofma-release"):
     """cargo build (offline, incremental) under a per-target-dir lock; returns the binary path."""
     args, rustflags = BUILDS[build]
-    tdir = f"{HARNESS}/target-{build}"
+    hdir = HARNESS
+    repo = os.environ.get("VERIF_REPO", "/repo")
+    if repo != "/repo":
+        # measurement aid (bin/trymutant-wt): build the same harness against a scratch worktree of /repo
+        hdir = f"{VERIF}/work/harness-alt-{abs(hash(repo)) % 10**8}-{os.path.basename(repo)}"
+        os.makedirs(hdir, exist_ok=True)
+        shutil.copytree(f"{HARNESS}/src", f"{hdir}/src", dirs_exist_ok=True)
+        shutil.copytree(f"{HARNESS}/.cargo", f"{hdir}/.cargo", dirs_exist_ok=True)
+        shutil.copy2(f"{HARNESS}/Cargo.lock", f"{hdir}/Cargo.lock")
+        open(f"{hdir}/Cargo.toml", "w").write(open(f"{HARNESS}/Cargo.toml").read().replace('path = "/repo', f'path = "{repo}'))
+    tdir = f"{hdir}/target-{build}"
     os.makedirs(tdir, exist_ok=True)
     env = dict(os.environ, CARGO_NET_OFFLINE="true", CARGO_TARGET_DIR=tdir)
     if rustflags:
@@ -61,7 +71,7 @@ def build_harness(workdir, build="fast-nofma-release"):
     with open(f"{tdir}/.verif.lock", "w") as lk:
         fcntl.flock(lk, fcntl.LOCK_EX)
         t0 = time.time()
-        p = subprocess.run(["cargo", "build", "--offline", "-q"] + args, cwd=HARNESS, env=env,
+        p = subprocess.run(["cargo", "build", "--offline", "-q"] + args, cwd=hdir, env=env,
                            stdout=subprocess.PIPE, stderr=subprocess.STDOUT, text=True)
         if p.returncode != 0:
             raise ToolError(f"harness build ({build}) failed:\n{p.stdout[-4000:]}")
@@ -212,8 +222,13 @@ def classify(prop, fails):
 
 
 # ------------------------------------------------------------------------------------------
+def evidence_dir():
+    # runs against a scratch worktree (VERIF_REPO, measurement of seeded changes) must not overwrite the real evidence
+    return f"{VERIF}/evidence" if os.environ.get("VERIF_REPO", "/repo") == "/repo" else f"{VERIF}/work/evidence-alt"
+
+
 def write_replays(prop, new_fails, limit=20):
-    d = f"{VERIF}/evidence/replays"
+    d = f"{evidence_dir()}/replays"
     os.makedirs(d, exist_ok=True)
     paths = []
     for n, f in enumerate(new_fails[:limit]):
@@ -227,12 +242,12 @@ def write_replays(prop, new_fails, limit=20):
 
 
 def write_evidence(prop, tier, level, coverage, wall, violations, assumptions):
-    os.makedirs(f"{VERIF}/evidence", exist_ok=True)
+    os.makedirs(evidence_dir(), exist_ok=True)
     ev = {"property_id": prop, "tier": tier, "seed": seed(), "level": level, "coverage": coverage,
           "assumptions": assumptions, "wall_s": round(wall, 2), "violations": violations}
-    tmp = f"{VERIF}/evidence/.{prop}.json.tmp"
+    tmp = f"{evidence_dir()}/.{prop}.json.tmp"
     json.dump(ev, open(tmp, "w"), indent=1)
-    os.replace(tmp, f"{VERIF}/evidence/{prop}.json")
+    os.replace(tmp, f"{evidence_dir()}/{prop}.json")
 
 
 def sample_events(shard_paths, k=3, maxlen=500):
